@@ -90,6 +90,7 @@ type Worker struct {
 	stderr *tailBuf
 	n      int
 	mu     sync.Mutex
+	startCmd func() *exec.Cmd // overrides the default (this binary under ulimit -v)
 }
 
 type tailBuf struct {
@@ -109,7 +110,10 @@ func (t *tailBuf) Write(p []byte) (int, error) {
 	if strings.Contains(s, "out of memory") || strings.Contains(s, "cannot allocate memory") {
 		t.oom = true
 	}
-	if strings.Contains(s, "panic:") || strings.Contains(s, "fatal error:") || strings.Contains(s, "goroutine ") {
+	if strings.Contains(s, "DATA RACE") {
+		t.first = "DATA RACE " + t.first
+	}
+	if strings.Contains(s, "panic:") || strings.Contains(s, "fatal error:") || (strings.Contains(s, "goroutine ") && !strings.Contains(s, "DATA RACE")) {
 		t.crash = true
 	}
 	t.b = append(t.b, p...)
@@ -130,9 +134,13 @@ func (c *Ctx) NewWorker(memKB int64, env ...string) *Worker {
 }
 
 func (w *Worker) start() {
-	self, _ := os.Executable()
-	sh := fmt.Sprintf("ulimit -v %d 2>/dev/null; exec %q worker", w.memKB, self)
-	w.cmd = exec.Command("/bin/sh", "-c", sh)
+	if w.startCmd != nil {
+		w.cmd = w.startCmd()
+	} else {
+		self, _ := os.Executable()
+		sh := fmt.Sprintf("ulimit -v %d 2>/dev/null; exec %q worker", w.memKB, self)
+		w.cmd = exec.Command("/bin/sh", "-c", sh)
+	}
 	w.cmd.Env = append(os.Environ(), w.env...)
 	w.in, _ = w.cmd.StdinPipe()
 	o, _ := w.cmd.StdoutPipe()
